@@ -157,7 +157,7 @@ func (c01) Gen(r *Rand, idx int, tier string) interface{} {
 		m.OnZero = p.Both && r.Bool()
 		if r.Pct(15) {
 			m.Abort = 1 + r.Intn(body-1)
-			m.AbortKind = Pick(r, []string{"", "", "queue-dead", "reset", "bad-reset"})
+			m.AbortKind = Pick(r, []string{"", "", "queue-dead", "reset", "bad-reset", "bad"})
 			if (m.AbortKind == "" || m.AbortKind == "reset") && r.Pct(40) {
 				m.AbortFull = 1 + r.Intn(2)
 				m.Abort += m.AbortFull * body
@@ -429,6 +429,14 @@ func (c01) Run(plan interface{}, schedSeed uint64, replay []simrt.Choice, lenien
 				case "queue-dead":
 					if err := ch.QueuePackage(dead, t); err == nil {
 						aborted = append(aborted, fmt.Sprintf("message %d: QueuePackage with a cancelled context reported success", mi))
+					}
+				case "bad":
+					// the same package that cannot be encoded, and no Reset: QueuePackage reported the failure, so nothing
+					// of the package may remain
+					bad := tds.NewDynamicPackage(false)
+					bad.Type, bad.ID, bad.Stmt = tds.TDS_DYN_PREPARE, "id", strings.Repeat("s", 40000)
+					if err := ch.QueuePackage(ctx, bad); err == nil {
+						aborted = append(aborted, fmt.Sprintf("message %d: queueing a package that cannot be encoded reported success", mi))
 					}
 				case "bad-reset":
 					// a package whose encoding fails after its first bytes were queued (a statement too long for the
